@@ -99,7 +99,6 @@ Lemma holds_spec c : holds c (spec_obs c) = [].
 Proof.
   unfold holds. set (s := spec_obs c).
   rewrite (all2_refl shape_eqb) by (intros [i u|i u x|i g]; cbn; apply Nat.eqb_refl).
-  rewrite (proj2 (rep_eqb_refl _)). cbn [andb].
   rewrite (all2_refl uri_eqb) by (intros e; apply bytes_eqb_refl).
   rewrite (all2_refl evctx_eqb) by (intros [i u|i u x|i g]; cbn; auto; apply pair_eqb_refl).
   rewrite (all2_refl (on_handle _)) by (intros [i u|i u x|i g]; cbn; auto; apply addr_eqb_refl).
